@@ -26,6 +26,9 @@ use exec::{execute, RunResult, RunStats, Violation};
 use plan::Plan;
 use subjects::{amt, What};
 
+#[global_allocator]
+static GLOBAL: exec::SeamAlloc = exec::SeamAlloc;
+
 fn run_seed(base: u64, i: u64) -> u64 {
     let mut p = prng::Prng::new(base.wrapping_mul(0x2545_F491_4F6C_DD1D) ^ i.wrapping_mul(0xD6E8_FEB8_6659_FD93));
     p.next() >> 1
@@ -54,6 +57,8 @@ fn add(a: &mut RunStats, b: &RunStats) {
     a.seams += b.seams;
     a.switches += b.switches;
     a.switches_inside_op += b.switches_inside_op;
+    a.alloc_seams += b.alloc_seams;
+    a.switches_at_alloc += b.switches_at_alloc;
     a.sink_error_fired += b.sink_error_fired;
     a.sink_panic_fired += b.sink_panic_fired;
     a.nested_fired += b.nested_fired;
@@ -326,6 +331,14 @@ fn minimise(mut plans: Vec<Plan>, kind: &str, known: &[String]) -> (Vec<Plan>, u
                     }
                 }
             }
+            if plans[pi].alloc_seams {
+                let mut c = plans.clone();
+                c[pi].alloc_seams = false;
+                if check(&c, &mut tried) {
+                    plans = c;
+                    changed = true;
+                }
+            }
             // calm the schedule: all-zero decisions, then a shorter stream
             if plans[pi].sched.iter().any(|&b| b != 0) {
                 let mut c = plans.clone();
@@ -554,6 +567,8 @@ fn batch(args: &[String]) -> i32 {
         "seams": total.seams,
         "thread_switches": total.switches,
         "thread_switches_inside_a_display": total.switches_inside_op,
+        "allocator_seams": total.alloc_seams,
+        "thread_switches_at_an_allocation_inside_library_code": total.switches_at_alloc,
         "faults_fired": {"sink_error": total.sink_error_fired, "sink_panic_caught": total.sink_panic_fired, "reentrant_display_from_sink": total.nested_fired},
         "stalls": total.stalls,
         "determinism": deterministic,
@@ -655,10 +670,7 @@ fn main() {
                 args.get(5).map(|s| s.split(',').filter(|x| !x.is_empty()).map(String::from).collect()).unwrap_or_default();
             let (mut ops, mut bad) = (0u64, 0u64);
             for i in g(3)..g(3) + g(4) {
-                let mut plan = plan::generate(run_seed(g(2), i));
-                for t in plan.threads.iter_mut() {
-                    t.truncate(2);
-                }
+                let plan = plan::generate_with(run_seed(g(2), i), true);
                 let res = exec::execute_mode(&plan, true);
                 ops += res.stats.ops;
                 for v in res.violations.iter().filter(|v| !known.contains(&v.kind)) {
